@@ -692,7 +692,7 @@ Proof. vm_compute. split; reflexivity. Qed.
 (* PART 2 — the per-pattern link: the executable model of the optional rewrites is sound            *)
 (* ============================================================================================== *)
 From Verif Require Import Model.CharClass Model.Parser Model.FinalOpt Proofs.SpecBoundsProofs Proofs.CharClassRanges Proofs.CharClassOverlap
-  Proofs.FinalOptDen Proofs.FinalOptK Proofs.FinalOptLink Proofs.FinalOptLeaf Proofs.FinalOptWalk Proofs.FinalOptAtomic Proofs.FinalOptEnd Proofs.FinalOptMain.
+  Proofs.FinalOptDen Proofs.FinalOptK Proofs.FinalOptPrune Proofs.FinalOptLink Proofs.FinalOptLeaf Proofs.FinalOptWalk Proofs.FinalOptAtomic Proofs.FinalOptEnd Proofs.FinalOptMain.
 (* Model/FinalOpt.fo_final_optimize g strict lite cl t  is the tree syntax.Parse returns under gate mask g, computed
    from the tree t it returns with every optional rewrite off (mask 31); leg c05-opt checks that per pattern and
    mask against the real parser (exact trees), through the exact reference Model/FinalOptParse.v.
@@ -702,16 +702,18 @@ From Verif Require Import Model.CharClass Model.Parser Model.FinalOpt Proofs.Spe
 
    PROVED here: for every tree, environment and mask whose two alternation families are off (bits 8 and 16 set:
    families 1 automatic atomic loops, 2 removal of ending backtracking, 4 bump-along marker may be on in any
-   combination), the model run with  strict = 15, lite = true  keeps the first result of the root from every state
+   combination), the model run with  strict = 7, lite = true  keeps the first result of the root from every state
    inside the text, hence the search finds the same match (both directions).
    The side conditions, all evaluated per tree by leg c05-opt (histogram "side-condition ..."):
      strict bit 1  (no \B stepped over before the END OF THE EXPRESSION)  is NECESSARY: known finding
                    c05-nonboundary-end, C05_R4_nonboundary_at_end_refuted above and C05_final_optimize_nb_refuted below;
-     strict bits 2, 4, 8 and lite mark what is NOT proved yet (hence `_partial`):
+     strict bits 2, 4 and lite mark what is NOT proved yet (hence `_partial`):
        2  canBeMadeAtomic walking up through / processNode descending into a BALANCING capture,
        4  canBeMadeAtomic walking up out of an atomic group it descended into itself (a successor of the loop),
-       8  the descent FindLastExpressionInLoopForAutoAtomic (loop bodies whose last child is disjoint from the first),
        lite  the mandatory reducers re-run by eliminateEndingBacktracking's Atomic wrapper must be the identity there;
+     (the descent FindLastExpressionInLoopForAutoAtomic, loop bodies whose last child is disjoint from the first, IS
+      covered, in processNode and in eliminateEndingBacktracking; strict bit 8 switches it off in the latter and is
+      not used by the theorems)
      and the two alternation families (atomic-alternation trimming / reordering, prefix factoring) are outside:
      their RULES are R5 / R6 above; the model of their code is tied to the parser by the leg only. *)
 
@@ -738,16 +740,18 @@ Print Assumptions C05_auto_atomic_loops_sound_partial.
 
 (* eliminateEndingBacktracking keeps the first result, the gated reduce (lite) every result *)
 Theorem C05_eliminate_ending_model_sound_partial :
-  forall cat_in isw isew sid e sets g strict, fo_gate g 8 = true -> fo_gate g 16 = true -> Z.testbit strict 3 = true ->
+  forall cat_in isw isew sid e sets, env_ok cat_in isw isew sid e sets ->
+  forall g strict, fo_gate g 8 = true -> fo_gate g 16 = true ->
+  Z.testbit strict 0 = true -> Z.testbit strict 1 = true -> Z.testbit strict 2 = true ->
   forall f,
     (forall par node node', fo_ee cat_in isw isew f g strict true par node = Ok node' -> node_ok sets node ->
         node_ok sets node' /\ rw_hrefines e (tr sid node) (tr sid node')) /\
     (forall mode ptype x x', fo_reduce cat_in isw isew f g strict true mode ptype x = Ok x' -> node_ok sets x ->
         node_ok sets x' /\ rw_refines e (tr sid x) (tr sid x')).
 Proof.
-  intros cat_in isw isew sid e sets g strict H8 H16 H3 f.
-  destruct (ee_red_sound cat_in isw isew sid e sets g strict H8 H16 H3 f) as [HE HR]. split.
-  - intros par node node' H Hok. destruct (HE par node node' H Hok) as (H1 & H2 & _). split; assumption.
+  intros cat_in isw isew sid e sets Henv g strict H8 H16 H0 H1 H2 f.
+  destruct (ee_red_sound cat_in isw isew sid e sets Henv g strict H8 H16 H0 H1 H2 f) as [HE HR]. split.
+  - intros par node node' H Hok. destruct (HE par node node' H Hok) as (H3 & H4 & _). split; assumption.
   - intros mode ptype x x' H Hok. exact (HR mode ptype x x' H Hok).
 Qed.
 Print Assumptions C05_eliminate_ending_model_sound_partial.
@@ -769,12 +773,12 @@ Theorem C05_final_optimize_sound_partial :
   forall g, fo_gate g 8 = true -> fo_gate g 16 = true ->
   forall fuel cl root root', fo_wf root = true -> sets_in sets root ->
     fo_final_optimize cat_in isw isew fuel g 0 false cl root = Ok root' ->        (* the code as it is ... *)
-    fo_final_optimize cat_in isw isew fuel g 15 true cl root = Ok root' ->        (* ... does not rely on a step outside the proof *)
+    fo_final_optimize cat_in isw isew fuel g 7 true cl root = Ok root' ->        (* ... does not rely on a step outside the proof *)
     fo_wf root' = true /\
     forall s, st_ok e s -> hd_list (den e (tr sid root) s) = hd_list (den e (tr sid root') s).
 Proof.
   intros cat_in isw isew sid e sets Henv g H8 H16 fuel cl root root' Hwf Hs _ H.
-  destruct (final_optimize_sound cat_in isw isew sid e sets Henv g 15 H8 H16 eq_refl eq_refl eq_refl eq_refl fuel cl root root' H (conj Hwf Hs))
+  destruct (final_optimize_sound cat_in isw isew sid e sets Henv g 7 H8 H16 eq_refl eq_refl eq_refl fuel cl root root' H (conj Hwf Hs))
     as [[Hwf' _] Hh].
   split; [exact Hwf' | exact Hh].
 Qed.
@@ -786,7 +790,7 @@ Theorem C05_final_optimize_find_partial :
   forall g, fo_gate g 8 = true -> fo_gate g 16 = true ->
   forall fuel cl root root', fo_wf root = true -> sets_in sets root ->
     fo_final_optimize cat_in isw isew fuel g 0 false cl root = Ok root' ->
-    fo_final_optimize cat_in isw isew fuel g 15 true cl root = Ok root' ->
+    fo_final_optimize cat_in isw isew fuel g 7 true cl root = Ok root' ->
     forall (rtl : bool) start prevlen r, 0 <= start <= tlen e ->
       (forall f, find e f (tr sid root) rtl start prevlen = Ok r -> exists f', find e f' (tr sid root') rtl start prevlen = Ok r) /\
       (forall f, find e f (tr sid root') rtl start prevlen = Ok r -> exists f', find e f' (tr sid root) rtl start prevlen = Ok r).
@@ -831,7 +835,7 @@ Example C05_ex_final_optimize_applies :
                  [RN 25 0 0 0 0 [] None [RN 43 0 97 0 INF [] None []; RN T_Bump 0 0 0 0 [] None []; RN 9 0 98 0 0 [] None []]] in
   fo_wf c05_ex_astar_b = true /\
   fo_final_optimize c05_cat_in c05_word c05_word 20 24 0 false false c05_ex_astar_b = Ok root' /\
-  fo_final_optimize c05_cat_in c05_word c05_word 20 24 15 true false c05_ex_astar_b = Ok root' /\
+  fo_final_optimize c05_cat_in c05_word c05_word 20 24 7 true false c05_ex_astar_b = Ok root' /\
   find (c05_env [97; 97; 98]) 6 (tr (fun _ => 0) c05_ex_astar_b) false 0 (-1) = Ok (Some {| pos := 3; caps := [(0, [(0, 3)])] |}) /\
   find (c05_env [97; 97; 98]) 6 (tr (fun _ => 0) root') false 0 (-1) = Ok (Some {| pos := 3; caps := [(0, [(0, 3)])] |}).
 Proof. vm_compute. repeat split; reflexivity. Qed.
@@ -863,5 +867,5 @@ Print Assumptions C05_final_optimize_nb_refuted.
 
 Example C05_ex_nb_side_condition_fails :
   fo_final_optimize c05_cat_in c05_word c05_word 20 24 0 false false c05_ex_nb <>
-  fo_final_optimize c05_cat_in c05_word c05_word 20 24 15 true false c05_ex_nb.
+  fo_final_optimize c05_cat_in c05_word c05_word 20 24 7 true false c05_ex_nb.
 Proof. vm_compute. discriminate. Qed.
